@@ -64,6 +64,8 @@ def check(ctx):
     repo = ctx.repo
     docs = require_labels(SCREENING_LABELS)
     ctx.note("specification", {k: v[:160] for k, v in docs.items()})
+    ctx.rule("R13.9", "the scales entering the screening prefactor (Device.K0, A0, Bc2, Lambda, coherence_length ...) are recomputed from the "
+                      "layer on every access: none of the Device members the solver reads is memoised (the Layer is mutable)", 6)
     ctx.rule("R13.8", "the area weights handed to the kernel carry mu0/(4 pi) K0/A0 xi^2 in 1/length_units (shared with C08 R08.1)", 1)
     ctx.rule("R13.7", "the screening iteration never writes into the arrays it is handed: a stored induced potential stays paired with its currents", 1)
     ctx.rule("R13.1", "numba kernel == eq. polyak line 1 (direct double sum with area weights)", 1)
@@ -85,6 +87,7 @@ def check(ctx):
     call_sites(ctx, fg)
     polyak(ctx, fg)
     loop_discipline(ctx)
+    scales_not_memoised(ctx, "R13.9")
     from ..report import Shared
     from . import c08
     c08.check(Shared(ctx, {"R08.1": "R13.8"}, only=lambda inst: inst.startswith("screening weights") or inst.startswith("dimension typing"),
@@ -279,3 +282,36 @@ def _dict_items(fn, name):
                 if isinstance(k, ast.Constant):
                     out.append((k.value, v))
     return out
+
+
+def scales_not_memoised(ctx, rule):
+    from ..effects import _memoised_members
+    repo = ctx.repo
+    D = repo.cls("tdgl.device.device", "Device")
+    fi = repo.func(SOLVER, "TDGLSolver.__init__")
+    getters = {d.name: d for d in D.node.body if isinstance(d, ast.FunctionDef) and any(norm(x) == "property" for x in d.decorator_list)}
+    plain = {d.name: d for d in D.node.body if isinstance(d, ast.FunctionDef)}
+    # members of Device the solver constructor reads (through the parameter `device` or self.device), closed under what they read on self
+    used, todo = set(), []
+    for x in own_nodes(fi.node):
+        if isinstance(x, ast.Attribute) and norm(x.value) in ("device", "self.device") and x.attr in plain:
+            todo.append(x.attr)
+    while todo:
+        m = todo.pop()
+        if m in used:
+            continue
+        used.add(m)
+        for x in ast.walk(plain[m]):
+            if isinstance(x, ast.Attribute) and isinstance(x.value, ast.Name) and x.value.id == "self" and x.attr in plain:
+                todo.append(x.attr)
+    memo = {name: (kind, cache) for name, kind, cache, _ in _memoised_members(D)}
+    if len(used) < 6:
+        raise AnalysisError(f"the solver constructor reads only {sorted(used)} on the device")
+    for m in sorted(used):
+        f = D.methods.get(m)
+        ctx.ob(rule, f"Device.{m} (read by the solver) is computed from the layer on every access", m not in memo, detail=memo.get(m),
+               where=f.fq if f else D.fq, construct=f"Device.{m} memoised", loc=loc(f, f.node) if f else "",
+               message=f"Device.{m} is memoised ({memo.get(m)}) although it is derived from the mutable Layer (london_lambda, thickness, coherence_length can "
+                       f"be assigned at any time) and nothing invalidates it",
+               consequence="a penetration-depth sweep that sets device.layer.london_lambda and solves again weights the screening kernel with the first "
+                           "run's Lambda: every step converges, but the stored potential is Lambda_new/Lambda_first times the Biot-Savart sum of the stored currents")
